@@ -80,6 +80,7 @@ func drawSchema(rt *rapid.T, name string, cfg schemaCfg) model.Schema {
 
 // tgen generates items and requests for one table.
 type tgen struct {
+	redeclare          bool // lateIndexOp may re-declare the type of an index key attribute
 	s                  model.Schema
 	keys               []model.Item
 	ixVals             map[string][]model.AV
@@ -251,4 +252,76 @@ func normOp(op model.Op) model.Op {
 		op.Values = nil
 	}
 	return op
+}
+
+// lateIndexOp draws an UpdateTable request that adds a global index to the
+// populated table: on index attributes of the existing schema or on the plain
+// attributes "a" / "b" (declared S), which stored items may lack, hold with the
+// declared type or hold with another one. ok is false when the drawn variant
+// cannot be sent (the AddIndex helper supplies no throughput).
+func (g *tgen) lateIndexOp(rt *rapid.T, db *model.DB, n int) (model.Op, bool) {
+	t := db.Tables[g.s.Table]
+	ix := model.IndexSchema{Name: fmt.Sprintf("late%d", n), Global: true}
+	if g.redeclare && len(t.Schema.Indexes) > 0 && rapid.IntRange(0, 3).Draw(rt, "redeclare") == 0 {
+		// a second index on the key attribute of an existing one, declared with
+		// another type (DynamoDB rejects the request)
+		old := rapid.SampledFrom(t.Schema.Indexes).Draw(rt, "redeclaredIndex")
+		a := old.Hash
+		if old.Range != "" && rapid.Bool().Draw(rt, "redeclareRange") {
+			a = old.Range
+		}
+		ty := "N"
+		if t.Schema.Attrs[a] == "N" {
+			ty = "S"
+		}
+		ix.Hash = a
+		return model.Op{Kind: "AddIndex", Table: g.s.Table, IndexSchema: &ix, IndexAttrs: map[string]string{a: ty}}, true
+	}
+	cands := []string{"g1", "g2", "r1", "r2", "sk", "a", "b"}
+	ix.Hash = rapid.SampledFrom(cands).Draw(rt, "lateHash")
+	if rapid.Bool().Draw(rt, "lateHasRange") {
+		ix.Range = rapid.SampledFrom(cands).Filter(func(a string) bool { return a != ix.Hash }).Draw(rt, "lateRange")
+	}
+	attrs := map[string]string{}
+	helper := rapid.IntRange(0, 3).Draw(rt, "viaHelper") == 0
+	for _, a := range []string{ix.Hash, ix.Range} {
+		if a == "" {
+			continue
+		}
+		if ty, ok := t.Schema.Attrs[a]; ok {
+			attrs[a] = ty
+			if ty != "S" {
+				helper = false
+			}
+		} else {
+			attrs[a] = "S"
+		}
+	}
+	if helper {
+		ix.ViaHelper, ix.NoThroughput = true, true
+		if t.Schema.Billing != "PAY_PER_REQUEST" {
+			return model.Op{}, false
+		}
+	}
+	return model.Op{Kind: "AddIndex", Table: g.s.Table, IndexSchema: &ix, IndexAttrs: attrs}, true
+}
+
+// adoptLateIndex makes the generator use the index added by op (if the model
+// accepted it): values for its key attributes and the new schema.
+func (g *tgen) adoptLateIndex(rt *rapid.T, db *model.DB, op model.Op) {
+	t := db.Tables[g.s.Table]
+	if t == nil || t.Schema.FindIndex(op.IndexSchema.Name) == nil {
+		return
+	}
+	for _, a := range []string{op.IndexSchema.Hash, op.IndexSchema.Range} {
+		if a == "" || a == g.s.Hash || a == g.s.Range {
+			continue
+		}
+		if _, ok := g.ixVals[a]; !ok {
+			for i := 0; i < 2; i++ {
+				g.ixVals[a] = append(g.ixVals[a], drawKeyValue(rt, op.IndexAttrs[a], g.o, "lateIxVal"))
+			}
+		}
+	}
+	g.s = t.Schema
 }
